@@ -803,7 +803,7 @@ class COOSubjac(SparseSubjac):
                 if 'uncovered_nz' not in self.info:
                     self.info['uncovered_nz'] = []
                     self.info['uncovered_threshold'] = uncovered_threshold
-                    self.info['uncovered_nz'].extend(list(zip(nzs, icol * np.ones_like(nzs))))
+                self.info['uncovered_nz'].extend(list(zip(nzs, icol * np.ones_like(nzs))))
 
     def set_dtype(self, dtype):
         """
@@ -901,6 +901,7 @@ class CSRSubjac(SparseSubjac):
                 if 'uncovered_nz' not in self.info:
                     self.info['uncovered_nz'] = []
                     self.info['uncovered_threshold'] = uncovered_threshold
+                self.info['uncovered_nz'].extend(list(zip(nzs, icol * np.ones_like(nzs))))
 
         self.info['val'].data = csc.tocsr().data
 
@@ -976,7 +977,7 @@ class CSCSubjac(SparseSubjac):
                 if 'uncovered_nz' not in self.info:
                     self.info['uncovered_nz'] = []
                     self.info['uncovered_threshold'] = uncovered_threshold
-                    self.info['uncovered_nz'].extend(list(zip(nzs, icol * np.ones_like(nzs))))
+                self.info['uncovered_nz'].extend(list(zip(nzs, icol * np.ones_like(nzs))))
 
 
 class OMCOOSubjac(COOSubjac):
